@@ -15,7 +15,9 @@ def build(ctx):
 
 
 def bounded(ctx):
-    common.suites(ctx, ['cedge', 'mix', 'dist', 'far', 'pseudo', 'li', 'data'], {'modes', 'decode'})
+    common.suites(ctx, ['cedge', 'mix', 'dist', 'far', 'pseudo', 'li', 'data', 'rand'], {'modes', 'decode'})
+    ctx.task('bounded.tasks:split_task', 'cedge')
+    ctx.task('bounded.tasks:split_task', 'mix')
 
 
 def explanation(ctx):
